@@ -93,6 +93,16 @@ Clone(s, d) ==
     /\ Rec(<<"Clone", s, d, "", 0, 0>>)
     /\ UNCHANGED frames
 
+\* Clone::clone_from(&mut s, &t)
+CloneFrom(s, t) ==
+    /\ On("CloneFrom") /\ s # t /\ ~Locked(s) /\ ~MutLent(t)
+    /\ hnd[s].k \in {"Fat", "Prot", "Thin"} /\ hnd[t].k = hnd[s].k
+    /\ blk' = Release(RcInc(blk, hnd[t].b), hnd[s].b)
+    /\ hnd' = [hnd EXCEPT ![s].b = hnd[t].b]
+    /\ res' = [NoRes EXCEPT !.op = "CloneFrom", !.s = s]
+    /\ Rec(<<"CloneFrom", s, t, "", 0, 0>>)
+    /\ UNCHANGED frames
+
 Drop(s) ==
     /\ On("Drop") /\ hnd[s].k \in {"Fat", "Prot", "Thin"} /\ ~Locked(s)
     /\ blk' = Release(blk, hnd[s].b)
@@ -209,6 +219,7 @@ NextLowest ==
           \/ FreeSlots # {} /\ \/ Clone(s, Lowest(FreeSlots))
                                \/ \E api \in {"with_arc", "with_arc_mut"} : Enter(s, Lowest(FreeSlots), api)
           \/ Drop(s)
+          \/ \E t \in Slots : CloneFrom(s, t)
           \/ IntoThin(s)
           \/ \E c \in ConvTable : Conv(c, s)
           \/ GetMut(s)
